@@ -70,8 +70,8 @@ static Verdict run(const Case &c) {
 
 int main(int argc, char **argv) {
     Args a = parse_args(argc, argv);
-    Current::install(a.failing);
     if (!a.replay.empty()) return replay_case(a, run);
+    Current::install(a.failing);
     Evidence ev;
     ev.rule = "histories of Discover(ToS 0/1/other, generation from boundary dictionary, bridged or direct)/Hello/Reset/Emit/Probe/Query/"
               "QueryLargeTlv/noise over 3 stations; every Discover the C05 model says must be accepted is checked field by field. "
